@@ -317,6 +317,8 @@ fn check_mapping_empty(
     ctx: &mut SemTypeContext,
     is_map: bool,
 ) -> Result<bool> {
+    #[cfg(feature = "beff_verif")]
+    crate::verif_probe::emptiness_step(negs.len());
     // 1. Check if pos is empty (any field is empty)
     // If any required field in `pos` is empty (Never), then the whole object type is empty.
     for v in pos.vs.values() {
